@@ -17,7 +17,9 @@ namespace sim {
 struct Action {
     enum Kind {
         run, publish, subscribe, unsubscribe, cancel, disconnect, destroy, signal,
-        broker_publish, net_kill, spurious_ack, hostile_bytes, set_silent, custom
+        broker_publish, net_kill, spurious_ack, hostile_bytes, set_silent, custom,
+        s_open, s_read, s_write, s_shutdown, s_cancel, s_close,    // autoconnect_stream level (Scenario::stream_mode)
+        s_trigger                                                   // reconnect_op on a probe owner (Scenario::stream_mode == 2)
     } kind = run;
     vt at = 0;                 // virtual time at which it fires ...
     int idle_index = -1;       // ... or, if >= 0, the ordinal of the idle point at which it fires
@@ -36,6 +38,7 @@ struct Action {
     int target = -1; SigType sig = SigType::total;
     // disconnect
     uint8_t rc = 0;
+    long long timeout_ms = -1;   // s_read
     // net_kill: error index; spurious_ack: packet to inject
     int ec = 0; ref::Packet pkt; std::string bytes;
     bool expect_immediate = false;   // the reference model says this request fails validation
@@ -52,6 +55,7 @@ struct Scenario {
     vt end = 30 * SEC;         // main phase runs until this virtual time
     bool final_cancel = true;  // cancel + destroy + drain check at the end
     bool auto_receive = true;  // keep an async_receive armed
+    int stream_mode = 0;       // 1: drive the library's autoconnect_stream directly; 2: drive reconnect_op on a probe owner
     int broker_auth_rounds = 0;
     std::vector<std::pair<std::string, std::string>> host_list;   // configured (host, port) list, for the rotation oracle
     std::string describe() const;
